@@ -1142,7 +1142,7 @@ impl FatVolume {
         let new_cluster = match self.find_next_free_cluster(block_cache, start_cluster, end_cluster)
         {
             Ok(cluster) => cluster,
-            Err(_) if start_cluster.0 > RESERVED_ENTRIES => {
+            Err(Error::NotEnoughSpace) if start_cluster.0 > RESERVED_ENTRIES => {
                 debug!(
                     "Retrying, finding next free between {:?}..={:?}",
                     ClusterId(RESERVED_ENTRIES),
@@ -1181,7 +1181,7 @@ impl FatVolume {
         self.next_free_cluster =
             match self.find_next_free_cluster(block_cache, new_cluster, end_cluster) {
                 Ok(cluster) => Some(cluster),
-                Err(_) if new_cluster.0 > RESERVED_ENTRIES => {
+                Err(Error::NotEnoughSpace) if new_cluster.0 > RESERVED_ENTRIES => {
                     match self.find_next_free_cluster(
                         block_cache,
                         ClusterId(RESERVED_ENTRIES),
